@@ -82,10 +82,67 @@ func (g *dgen) attrs() map[string]*sysl.Attribute {
 
 var dprims = []sysl.Type_Primitive{sysl.Type_INT, sysl.Type_STRING, sysl.Type_BOOL, sysl.Type_DECIMAL, sysl.Type_ANY, sysl.Type_DATE, sysl.Type_EMPTY}
 
+// a range bound as the compiler writes it (an integer) or any other sysl.Value kind
+func (g *dgen) bound() *sysl.Value {
+	switch g.r.Intn(5) {
+	case 0:
+		return nil
+	case 1:
+		return &sysl.Value{Value: &sysl.Value_S{S: g.fresh("b")}}
+	case 2:
+		return &sysl.Value{Value: &sysl.Value_D{D: 2.5}}
+	}
+	return &sysl.Value{Value: &sysl.Value_I{I: int64(g.r.Intn(4001)) - 2000}}
+}
+
+// constraint lists: what the compiler writes (one constraint: length / precision+scale / bit width with or without
+// range) and what only a loaded model can hold (several constraints, any mix of members, a resolution)
+func (g *dgen) constraints() []*sysl.Type_Constraint {
+	one := func() *sysl.Type_Constraint {
+		c := &sysl.Type_Constraint{}
+		if g.r.Chance(2, 3) {
+			c.Precision, c.Scale = int32(g.r.Intn(20)), int32(g.r.Intn(5))
+		}
+		if g.r.Bool() {
+			c.Length = &sysl.Type_Constraint_Length{Min: int64(g.r.Intn(5)), Max: int64(g.r.Intn(100))}
+		}
+		if g.r.Chance(1, 3) {
+			c.BitWidth = []int32{8, 16, 32, 64}[g.r.Intn(4)]
+		}
+		if g.r.Chance(1, 3) {
+			c.Range = &sysl.Type_Constraint_Range{Min: g.bound(), Max: g.bound()}
+		}
+		if g.r.Chance(1, 5) {
+			c.Resolution = &sysl.Type_Constraint_Resolution{Base: 10, Index: -int32(g.r.Intn(4))}
+		}
+		return c
+	}
+	switch g.r.Intn(8) {
+	case 0, 1, 2:
+		return nil
+	case 3:
+		return []*sysl.Type_Constraint{} // present and empty
+	case 4: // int32 / int64 as compiled
+		if g.r.Bool() {
+			return []*sysl.Type_Constraint{{BitWidth: 32, Range: &sysl.Type_Constraint_Range{
+				Min: &sysl.Value{Value: &sysl.Value_I{I: -2147483648}}, Max: &sysl.Value{Value: &sysl.Value_I{I: 2147483647}}}}}
+		}
+		return []*sysl.Type_Constraint{{BitWidth: 64, Range: &sysl.Type_Constraint_Range{
+			Min: &sysl.Value{Value: &sysl.Value_I{I: -9223372036854775808}}, Max: &sysl.Value{Value: &sysl.Value_I{I: 9223372036854775807}}}}}
+	case 5:
+		return []*sysl.Type_Constraint{one()}
+	}
+	var cs []*sysl.Type_Constraint
+	for i := 2 + g.r.Intn(2); i > 0; i-- {
+		cs = append(cs, one())
+	}
+	return cs
+}
+
 func (g *dgen) typ(depth int) *sysl.Type {
 	t := &sysl.Type{Opt: g.r.Chance(1, 4), Attrs: g.attrs(), SourceContexts: g.srcs()}
-	k := g.r.Intn(12)
-	if depth > 2 && k >= 5 && k <= 7 {
+	k := g.r.Intn(16)
+	if depth > 2 && (k >= 5 && k <= 7 || k >= 12) {
 		k = 0
 	}
 	switch k {
@@ -116,14 +173,20 @@ func (g *dgen) typ(depth int) *sysl.Type {
 		t.Type = &sysl.Type_OneOf_{OneOf: &sysl.Type_OneOf{}}
 	case 11:
 		t.Type = nil
-	}
-	for i := g.r.Intn(3); i > 0 && g.r.Chance(1, 2); i-- {
-		c := &sysl.Type_Constraint{Precision: int32(g.r.Intn(20)), Scale: int32(g.r.Intn(5))}
-		if g.r.Bool() {
-			c.Length = &sysl.Type_Constraint_Length{Min: int64(g.r.Intn(5)), Max: int64(g.r.Intn(100))}
+	case 12: // every other kind of type in a field / parameter / element position
+		one := &sysl.Type_OneOf{}
+		for i := 1 + g.r.Intn(3); i > 0; i-- {
+			one.Type = append(one.Type, g.typ(depth+1))
 		}
-		t.Constraint = append(t.Constraint, c)
+		t.Type = &sysl.Type_OneOf_{OneOf: one}
+	case 13:
+		t.Type = &sysl.Type_Map_{Map: &sysl.Type_Map{Key: g.typ(depth + 1), Value: g.typ(depth + 1)}}
+	case 14:
+		t.Type = &sysl.Type_Enum_{Enum: &sysl.Type_Enum{Items: map[string]int64{g.fresh("V"): 1}}}
+	case 15:
+		t.Type = &sysl.Type_Relation_{Relation: &sysl.Type_Relation{AttrDefs: map[string]*sysl.Type{g.fresh("c"): {Type: &sysl.Type_Primitive_{Primitive: sysl.Type_INT}}}}}
 	}
+	t.Constraint = g.constraints()
 	return t
 }
 
@@ -288,14 +351,28 @@ func genDirect(seed uint64) *sysl.Module {
 				a := g.typ(1)
 				t.Type, t.Constraint = a.Type, nil
 			case 5:
-				t.Type = &sysl.Type_OneOf_{OneOf: &sysl.Type_OneOf{Type: []*sysl.Type{g.typ(2)}}}
+				one := &sysl.Type_OneOf{}
+				for j := g.r.Intn(4); j > 0; j-- {
+					one.Type = append(one.Type, g.typ(2))
+				}
+				t.Type = &sysl.Type_OneOf_{OneOf: one}
 			case 6:
 				t.Type = &sysl.Type_Map_{Map: &sysl.Type_Map{Key: g.typ(2), Value: g.typ(2)}}
 			}
 			app.Types[g.fresh("T")] = t
 		}
-		for i := g.r.Intn(2); i > 0; i-- {
-			app.Views[g.fresh("View")] = &sysl.View{RetType: g.typ(1), Attrs: g.attrs(), SourceContexts: g.srcs()}
+		for i := g.r.Intn(3); i > 0; i-- {
+			v := &sysl.View{RetType: g.typ(1), Attrs: g.attrs(), SourceContexts: g.srcs(), Param: g.params()}
+			if g.r.Chance(1, 5) {
+				v.RetType = nil // as compiled from a view that declares no return type
+			}
+			switch g.r.Intn(3) {
+			case 0:
+				v.Expr = &sysl.Expr{Expr: &sysl.Expr_Name{Name: g.fresh("x")}}
+			case 1:
+				v.Expr = &sysl.Expr{Expr: &sysl.Expr_Literal{Literal: &sysl.Value{Value: &sysl.Value_I{I: int64(g.r.Intn(9))}}}}
+			}
+			app.Views[g.fresh("View")] = v
 		}
 		key := parts[0]
 		for _, p := range parts[1:] {
